@@ -10,10 +10,10 @@ SPEC = dict(
          "lost after the stream restart, answer (result/error) to the manager's own roster request from {server, own bare, own "
          "full, others}, roster IQ set/get/result/error from {server, own bare, own full, stranger, look-alikes of the own JID}, "
          "presence available/unavailable/other from several resources}: every session-legal sequence of exactly depth 5 (quick) "
-         "or 6 (thorough) over a 16-symbol roster alphabet and of depth 6 / 7 over a 12-symbol presence alphabet, a corpus of minimized histories, "
+         "or 6 (thorough) over a 17-symbol roster alphabet and of depth 6 / 7 over a 12-symbol presence alphabet, a corpus of minimized histories, "
          "plus seeded random histories of length 5..50 with random item lists. The real QXmppRosterManager runs behind the real "
          "QXmppClient/QXmppOutgoingClient (IQ tracking, stanza dispatch, SM flags; only the socket is absent). Every line compares "
-         "signals emitted, IQs sent (roster get by order, result/error by id), isRosterReceived, the sorted contact list with "
+         "signals emitted, IQs sent (roster get by order, result by id and `to`, error by id), isRosterReceived, the sorted contact list with "
          "name/subscription/groups and the sorted presence table with status texts between implementation and Lean model; a "
          "sequence is non-trivial when it yields >= 2 distinct observations",
     trusted_base=[
